@@ -5,6 +5,7 @@
  */
 #define _GNU_SOURCE
 #include <stdio.h>
+#include <stdlib.h>
 #include <sys/resource.h>
 #include <unistd.h>
 
@@ -17,7 +18,8 @@ int main(int argc, char **argv)
 		return 126;
 	}
 	setrlimit(RLIMIT_CORE, &rl);
-	setsid();
+	if (!getenv("VLAUNCH_NOSETSID"))   /* under strace the tracer is the group leader */
+		setsid();
 	if (chdir(argv[1]) < 0) {
 		perror("vlaunch: chdir");
 		return 126;
